@@ -20,9 +20,7 @@ def run(ctx):
         jobs.append(Job("c17.py", "h_marked", {"leader": li}, T, 30, tag=f"leader={li}"))
         for b0 in range(len(alpha)):
             jobs.append(Job("c17.py", "h_unmarked", {"leader": li, "alpha": alpha, "nb": nb, "b0": b0}, T, 30, tag=f"leader={li},first={alpha[b0]!r}", meta={"twin": alpha[b0] == "x"}))
+    # part 2 first: many short conditions; the long pool conditions of part 1 then use what is left of the tier's wall budget
+    from checks import skel_common
+    skel_common.run_c17(ctx)
     ctx.run_xh(jobs)
-    try:
-        from checks import skel_common
-        skel_common.run_c17(ctx)
-    except ImportError:
-        ctx.notes.append("part 2 (skeleton differential) not built in this revision")
